@@ -36,7 +36,10 @@ THEOREMS += ["TLX.Props.C02Capstone." + t for t in (
     "crypto_not_exported", "est_keylog_irrelevant",
     "quic_handshake_establishes", "quic_connection_exact", "step_long_eq", "afterTls_hs", "handleCrypto_hs",
     "handleFrames_hs", "hs_packet_step", "hs_turn", "hs_loop", "hs_feed_step", "hs_feed_rest", "est_of_hsSt",
-    "feedPre_fresh", "feedPre_hs", "longOf_toPkt", "ExHs.ptrace_ex", "ExHs.fired_ex")]
+    "feedPre_fresh", "feedPre_hs", "longOf_toPkt", "ExHs.ptrace_ex", "ExHs.fired_ex",
+    "ptrace_of_conformant", "ptrace_phase", "tlsUpdate_kstep", "inv_complete", "msgLoop_handshake_cons", "feed_flight",
+    "quic_connection_exact_conformant", "keyed_of_handshake", "quic_handshake_establishes_from", "after_retry_pre",
+    "retry_feed", "quic_connection_exact_retry", "ExConf.hsx_ok")]
 POINT = "run(): whole QUIC export, real tool vs TLX.QuicPipeline (toy AEAD + toy hp mask, real key schedule)"
 
 
